@@ -127,6 +127,7 @@ type run struct {
 	lastInstr       ssa.Instruction
 	lazyAssumes     int
 	choiceMemo      map[string]int
+	ghostKeys       map[*value]*value   // private key object -> its public half (vrt.BindKeyPair)
 	ghostSig        map[*value]ghostSig // JWS contract stubs: signature object -> (signing key, signed payload)
 	ghostParsed     value               // what the parser stub yields
 	ghostFlags      map[string]value    // named results of contract stubs (e.g. Validate outcome)
